@@ -450,6 +450,13 @@ def run(ctx):
     if not ctx.is_borrowed:
         from . import c05 as _c05
         _c05.run(ctx.borrowed("C05", "C06.I9:"))
+    # I11 (after seed C06-9): the template named by include / import / from-import / extends is an expression of the
+    # template; a macro or call body sees the variables in it only if the assignment tracker visits that expression
+    # (it decides what a macro encloses).  The composition slice of C18.W1 is a clause of this property.
+    if not ctx.is_borrowed:
+        from . import c18 as _c18
+        _c18.run(ctx.borrowed("C18", "C06.I11:", only=lambda rule, inst: rule.startswith("C18.W1.") and any(
+            t in inst for t in ("Include.", "Import.", "FromImport.", "Extends."))))
     cfgs = [c for c in ctx.configs() if c != "MIN"]
     for cname in cfgs:
         prog = ctx.program(cname)
